@@ -119,6 +119,10 @@ func verif_sameArray[T any](a, b []T) bool {
 }
 func verif_unfold[T any](x T) bool { return true }
 func verif_same[T any](a, b T) bool { return any(a) == any(b) }
+func verif_entry[T any](x T) T { return x }
+func verif_offset[T any](s []T) int { panic("verif: spec only") }
+func verif_f64bits(x float64) verifInt { panic("verif: spec only") }
+func verif_f64frombits(n verifInt) float64 { panic("verif: spec only") }
 
 func verif_callPanicked[F any](f F) bool { return false }
 func verif_callReturned[F any](f F) bool { return false }
@@ -405,6 +409,7 @@ func buildOverlay(pcs []*PkgContracts) (map[string][]byte, error) {
 							clauses = append(clauses, c)
 						}
 						clauses = append(clauses, fc.LoopHint[k+1]...)
+						clauses = append(clauses, fc.LoopMod[k+1]...)
 						for _, cl := range clauses {
 							ids, err := freeIdents(cl.Go)
 							if err != nil {
@@ -505,6 +510,7 @@ func loadProgram(pkgDirs []string) (*Program, error) {
 		Dir:     repoDir,
 		Fset:    P.fset,
 		Overlay: ov,
+		BuildFlags: []string{"-tags=verif"},
 		Env:     append(os.Environ(), "GOFLAGS=-mod=mod", "GOPROXY=off", "CGO_ENABLED=1"),
 	}
 	pkgs, err := packages.Load(cfg, patterns...)
@@ -695,7 +701,7 @@ func (P *Program) checkClause(fi *FuncInfo, cl *Clause) (*CheckedExpr, error) {
 		pos = fi.lit.Body.Lbrace + 1
 	} else if fi.decl != nil {
 		pos = fi.decl.Body.Lbrace + 1
-		if cl.Kind == "invariant" || cl.Kind == "decreases" {
+		if cl.Kind == "invariant" || cl.Kind == "decreases" || cl.Kind == "loopmod" {
 			if cl.Loop < 1 || cl.Loop > len(fi.loops) {
 				return nil, fmt.Errorf("%s:%d: %s has no loop %d", cl.File, cl.Line, fi.fc.Key, cl.Loop)
 			}
@@ -730,6 +736,9 @@ func (P *Program) checkClause(fi *FuncInfo, cl *Clause) (*CheckedExpr, error) {
 	rt := "bool"
 	if cl.Kind == "decreases" {
 		rt = "int"
+	}
+	if cl.Kind == "loopmod" {
+		rt = "any"
 	}
 	wrapped := len(wrapParams) > 0
 	if wrapped {
